@@ -34,10 +34,10 @@ PROPS = {
             "condition is absent or true, appends once per row, evaluates every target on that row (R-ROWLOOP, 4 "
             "gate cases executed abstractly); FROM expression AND-ed with WHERE (R-FROMAND, 4 cases). Does not "
             "decide the numeric value of an operator application, regular-expression results or overload "
-            "resolution for nested expressions. The constant a cell computes with is the parameter written at that place: positional placeholders bind in textual order whatever the order clauses are compiled in (R-PLACEHOLDER). R-DIVGUARD and the operator terms of R-OPSEM are decided by interpreting each implementation on terms with a zero and a non-zero divisor: no division by the second operand is evaluated before the zero test, the zero case returns NULL, the other case returns the operation of the operator's name. AND / OR / COALESCE are interpreted on terms for every operand list of length 1-3 over NULL, FALSE, TRUE, zero/empty and other values: the value is that of the truth table (NULL, FALSE or TRUE for AND / OR), operands are evaluated once, left to right, and evaluation stops where the statement says it stops (R-3VL). No evaluator writes state that outlives the row (write census, R-SHARED): a cell is computed from its row alone. R-NULLSTRICT is decided on terms: every NULL / non-NULL operand assignment of every NULL-propagating evaluator class (and every outcome of the comparisons between non-NULL values); a NULL reaches neither the operation nor an ordering comparison nor arithmetic. The function-call evaluator recognises NULL operands by identity (R-EVALALL). AND, OR, literals, `*` and column names compile to the node of that meaning over all their arguments in source order (R-NODEBUILD, handlers interpreted on terms)."),
+            "resolution for nested expressions. The constant a cell computes with is the parameter written at that place: positional placeholders bind in textual order whatever the order clauses are compiled in (R-PLACEHOLDER). R-DIVGUARD and the operator terms of R-OPSEM are decided by interpreting each implementation on terms with a zero and a non-zero divisor: no division by the second operand is evaluated before the zero test, the zero case returns NULL, the other case returns the operation of the operator's name. AND / OR / COALESCE are interpreted on terms for every operand list of length 1-3 over NULL, FALSE, TRUE, zero/empty and other values: the value is that of the truth table (NULL, FALSE or TRUE for AND / OR), operands are evaluated once, left to right, and evaluation stops where the statement says it stops (R-3VL). No evaluator writes state that outlives the row (write census, R-SHARED): a cell is computed from its row alone. R-NULLSTRICT is decided on terms: every NULL / non-NULL operand assignment of every NULL-propagating evaluator class (and every outcome of the comparisons between non-NULL values); a NULL reaches neither the operation nor an ordering comparison nor arithmetic. The function-call evaluator recognises NULL operands by identity (R-EVALALL). AND, OR, literals, `*` and column names compile to the node of that meaning over all their arguments in source order (R-NODEBUILD, handlers interpreted on terms). The scalar functions a cell is computed with are the recorded definitions (R-DEFN, see C18)."),
         'assumptions': TRUSTED_STRUCT + TRUSTED_ABSINT[3:],
         'quick': [sxev.rule_nullstrict, evalnodes.rule_divguard, evalnodes.rule_promote, evalnodes.rule_opsem,
-                  sxev.rule_3vl, sx.rule_rowloop, sxk.rule_fromand, sxk.rule_implicitcast, gr.rule_precmatrix, sxst.rule_placeholder, st.rule_shared, sxev.rule_evalall, sxk.rule_nodebuild],
+                  sxev.rule_3vl, sx.rule_rowloop, sxk.rule_fromand, sxk.rule_implicitcast, gr.rule_precmatrix, sxst.rule_placeholder, st.rule_shared, sxev.rule_evalall, sxk.rule_nodebuild, sxl.rule_defn],
         'thorough': [],
     },
     'C02': {
@@ -51,7 +51,7 @@ PROPS = {
             "faithfulness of the structural node equality used to merge GROUP BY expressions with targets, for all "
             "evaluator classes and all column instances that can meet in one table (R-EQFAITH); grouping references "
             "validated against the domain they are resolved in (R-IDXBOUND) and hidden grouping targets nameless and "
-            "appended (R-HIDDEN). Does not decide numeric values of folds nor hashing/equality of key values. Every aggregate node of a target expression is found, once per occurrence and left to right, by get_columns_and_aggregates (R-AGGCOLLECT): a node left out is never allocated, updated or finalized. R-AGGCLASS decides, on terms, the final state of the slot and the mutations of the accumulator object for every value x slot x order x state-query case of every aggregate class, and initialize / finalize / __call__. EvalNode.__eq__ itself holds iff same class and all __slots__ attributes equal (16 cases on terms). Every operand a node is built with is among what childnodes() yields, for each of the 12 evaluator classes (R-CHILDNODES): an operand kept in a tuple or outside __slots__ hides the aggregates below it. The slot allocator on terms: n allocate() calls return n different indexes, all valid in every store create_store() makes afterwards, and every store is a new list of NULLs (R-ALLOCATOR). An aggregate query that returns after the scan without walking the groups, on a condition that is not about the group container being empty, is a violation (R-AGGPROTO early-return)."),
+            "appended (R-HIDDEN). Does not decide numeric values of folds nor hashing/equality of key values. Every aggregate node of a target expression is found, once per occurrence and left to right, by get_columns_and_aggregates (R-AGGCOLLECT): a node left out is never allocated, updated or finalized. R-AGGCLASS decides, on terms, the final state of the slot and the mutations of the accumulator object for every value x slot x order x state-query case of every aggregate class, and initialize / finalize / __call__. EvalNode.__eq__ itself holds iff same class and all __slots__ attributes equal (16 cases on terms). Every operand a node is built with is among what childnodes() yields, for each of the 12 evaluator classes (R-CHILDNODES): an operand kept in a tuple or outside __slots__ hides the aggregates below it. The slot allocator on terms: n allocate() calls return n different indexes, all valid in every store create_store() makes afterwards, and every store is a new list of NULLs (R-ALLOCATOR). An aggregate query that returns after the scan without walking the groups, on a condition that is not about the group container being empty, is a violation (R-AGGPROTO early-return). LIMIT, DISTINCT and ORDER BY act on the groups: with any of them the aggregates are still fed from every selected row of the source table itself (R-AGGPROTO scan), and a grouped query without any aggregate still assigns every selected row to the group of its full key, visible or not (R-AGGPROTO grouping)."),
         'assumptions': TRUSTED_STRUCT,
         'quick': [sxs.rule_aggproto, sxag.rule_aggclass, eqfaith.rule_eqfaith, sxk.rule_idxbound, cr.rule_hidden, sxg.rule_aggcollect, sxev.rule_childnodes, sxs.rule_allocator],
         'thorough': [sxs.rule_aggproto_deep, sxk.rule_idxbound_deep],
@@ -68,10 +68,10 @@ PROPS = {
             "execution (R-NULLKEY); faithfulness of node equality used to merge ORDER BY keys (R-EQFAITH); positional "
             "keys validated against the number of visible targets (R-IDXBOUND); hidden keys nameless (R-HIDDEN). Does "
             "not prove that the multi-pass scheme yields the lexicographic order (an algorithmic fact about stable "
-            "sorts) nor comparability of values. For a compiled SELECT execute_query returns, on every path, the pair execute_select returned (R-QUERYEXEC): ordering, de-duplication and the cut have one implementation."),
+            "sorts) nor comparability of values. For a compiled SELECT execute_query returns, on every path, the pair execute_select returned (R-QUERYEXEC): ordering, de-duplication and the cut have one implementation. Executing a compiled statement leaves it as it was - the ORDER BY specification, the targets and the limit are read, never changed (R-INPUTMUT over the executor, whose `query` argument is caller-owned) - so a statement compiled once orders its result the same way every time it is executed."),
         'assumptions': TRUSTED_STRUCT,
         'quick': [sxs.rule_pipeline, sxs.rule_sortskel, sx.rule_nullkey, eqfaith.rule_eqfaith,
-                  sxk.rule_idxbound, cr.rule_hidden, sxs.rule_queryexec],
+                  sxk.rule_idxbound, cr.rule_hidden, sxs.rule_queryexec, st.rule_inputmut],
         'thorough': [sxs.rule_sortskel_deep, sxk.rule_idxbound_deep],
     },
     'C04': {
@@ -88,10 +88,10 @@ PROPS = {
             "type (R-COALESCE, 36 type pairs executed); untyped operands are cast to the other side's type, decimal for "
             "int (R-IMPLICITCAST); in the thorough tier every overload is also run for the subclass operands that the "
             "MRO lookup admits (R-ADMITTED). Decides type conformance of declarations vs. implementations for all overloads; "
-            "does not decide values of dtype `object` nor conformance of ledger data to beancount's annotations. Also: the overload-resolution primitives of types.py (Any equals every class and not the `*` pseudo-type, the strict linearisation, first overload along it) behave as the registry model assumes (R-LOOKUP, 13 cases on terms), and every output column of both scan branches holds the value of its own target (R-ROWLOOP, R-AGGPROTO key layout). A subquery column announces the data type of the inner target whose row position it reads, with hidden, repeated and mixed-case inner names (R-VISFILTER). AND / OR announce bool and evaluate to NULL, FALSE or TRUE whatever the operand types (R-3VL). `x.attr` builds EvalGetter(x, field column, field column datatype) (R-ACCESSNODE); R-GUARDS: a grouping key of a type that cannot be hashed is rejected however it is referenced."),
+            "does not decide values of dtype `object` nor conformance of ledger data to beancount's annotations. Also: the overload-resolution primitives of types.py (Any equals every class and not the `*` pseudo-type, the strict linearisation, first overload along it) behave as the registry model assumes (R-LOOKUP, 13 cases on terms), and every output column of both scan branches holds the value of its own target (R-ROWLOOP, R-AGGPROTO key layout). A subquery column announces the data type of the inner target whose row position it reads, with hidden, repeated and mixed-case inner names (R-VISFILTER). AND / OR announce bool and evaluate to NULL, FALSE or TRUE whatever the operand types (R-3VL). `x.attr` builds EvalGetter(x, field column, field column datatype) (R-ACCESSNODE); R-GUARDS: a grouping key of a type that cannot be hashed is rejected however it is referenced. Constants announce type(value) exactly, or the dtype they are given (R-CONSTTYPE)."),
         'assumptions': TRUSTED_ABSINT,
         'quick': [dtype.rule_dtype, dtype.rule_typesafe, dtype.rule_renderable, sxg.rule_opresolve, sxk.rule_coalesce,
-                  sxk.rule_implicitcast, sxty.rule_lookup, sxs.rule_aggproto, sx.rule_rowloop, tb.rule_tablefields, cr.rule_visfilter, sxev.rule_3vl, sxk.rule_accessnode, sxg.rule_guards],
+                  sxk.rule_implicitcast, sxty.rule_lookup, sxs.rule_aggproto, sx.rule_rowloop, tb.rule_tablefields, cr.rule_visfilter, sxev.rule_3vl, sxk.rule_accessnode, sxg.rule_guards, sxk.rule_consttype],
         'thorough': [dtype.rule_admitted],
     },
     'C05': {
@@ -112,11 +112,11 @@ PROPS = {
             "grammar rule (R-PARTIAL); compile-time constant folding protected (R-FOLDSAFE); AST classes <-> compiler "
             "handlers <-> shell handlers exhaustive (R-EXHAUSTIVE); DB-API exception tree (R-EXCTREE); structural "
             "equality faithful (R-EQFAITH). Does not decide acceptance of every well-formed statement nor validity "
-            "of parse positions produced by TatSu at run time. Also on terms: the 11 combinations of placeholder kinds and parameter kinds give the stated outcome (R-PLACEHOLDER), the 33 FROM clause combinations (R-FROMCLAUSE), IN / NOT IN operands (R-INOP), the resolution primitives (R-LOOKUP). Cursor.execute hands the compiler the connection context, the statement as given (or parsed from the text given) and the caller's parameter object itself - only None may be replaced - so the placeholder checks answer for what the caller passed (R-EXECFLOW)."),
+            "of parse positions produced by TatSu at run time. Also on terms: the 11 combinations of placeholder kinds and parameter kinds give the stated outcome (R-PLACEHOLDER), the 33 FROM clause combinations (R-FROMCLAUSE), IN / NOT IN operands (R-INOP), the resolution primitives (R-LOOKUP). Cursor.execute hands the compiler the connection context, the statement as given (or parsed from the text given) and the caller's parameter object itself - only None may be replaced - so the placeholder checks answer for what the caller passed (R-EXECFLOW). ast.walk visits every node once (R-WALK): the placeholder checks see every placeholder. The metadata accessors meta / entry_meta / any_meta are checked against their signature like any function before they are rewritten (R-GUARDS, 6 arity cases); IN (subquery) needs exactly one column - none is rejected like several (R-INOP)."),
         'assumptions': TRUSTED_STRUCT + TRUSTED_ABSINT[:1],
         'quick': [cr.rule_raise, sxg.rule_guards, sxg.rule_targetchk, cr.rule_guard_typesafe, sxk.rule_idxbound,
                   sxg.rule_opresolve, cr.rule_partial, cr.rule_foldsafe, cr.rule_exhaustive, cr.rule_exctree,
-                  eqfaith.rule_eqfaith, sxk.rule_coalesce, sxk.rule_implicitcast, sxst.rule_placeholder, sxk.rule_fromclause, sxk.rule_inop, sxty.rule_lookup, sxev.rule_childnodes, sxc.rule_execflow],
+                  eqfaith.rule_eqfaith, sxk.rule_coalesce, sxk.rule_implicitcast, sxst.rule_placeholder, sxk.rule_fromclause, sxk.rule_inop, sxty.rule_lookup, sxev.rule_childnodes, sxc.rule_execflow, sxst.rule_walk],
         'thorough': [sxk.rule_idxbound_deep],
     },
     'C06': {
@@ -133,7 +133,7 @@ PROPS = {
             "rules' regexes (R-SHADOW); clause openers reserved (R-KEYWORDS); every lexical class (comments, identifiers, "
             "strings, integers, decimals, dates) denotes exactly the language of its reference definition, decided by "
             "equivalence of the two finite automata, and the comment patterns copied into the generated parser equal the "
-            "grammar's (R-LEXLANG); literal forms by language membership (R-LEXSPEC, thorough). Does not decide the behaviour of TatSu's run-time, hence not the round trip itself. The clauses of select / balances / journal / print / groupby are read in the order of the published language (R-CLAUSEORDER). Each of the 9 clause rules (select, from, groupby, order, pivotby, target, balances, journal, print) derives exactly the word sequences of the published language: the grammar expression is expanded to sequences of keywords and syntactic categories (helper rules in place, repetitions to one and two elements) and compared as a set with the specification kept in the checker (R-CLAUSELANG); no token contains white space (R-KEYWORDS keywords:spaced: such a token admits exactly that white space between its words)."),
+            "grammar's (R-LEXLANG); literal forms by language membership (R-LEXSPEC, thorough). Does not decide the behaviour of TatSu's run-time, hence not the round trip itself. The clauses of select / balances / journal / print / groupby are read in the order of the published language (R-CLAUSEORDER). Each of the 9 clause rules (select, from, groupby, order, pivotby, target, balances, journal, print) derives exactly the word sequences of the published language: the grammar expression is expanded to sequences of keywords and syntactic categories (helper rules in place, repetitions to one and two elements) and compared as a set with the specification kept in the checker (R-CLAUSELANG); no token contains white space (R-KEYWORDS keywords:spaced: such a token admits exactly that white space between its words). parse() hands the generated parser the text and the semantic actions and nothing else: no override of white space, comments, keywords, name guard or case folding, on the call or on the parser constructor (R-PARSEFRESH parsefresh:config). The structural semantic actions - ORDER BY direction (ASC when nothing is written), `*`, lists, and the default action that builds the node class of a typed rule from every captured field with TatSu's trailing underscores dropped - are decided on terms (R-SEMANTICS)."),
         'assumptions': ["TatSu's code generator (5.7.x, the version range pyproject.toml pins) is deterministic and "
                         "faithful to its input grammar", "no BQL text is parsed by the check"],
         'technique': 'translation validation (regenerate and compare syntax trees) + grammar-model analysis',
@@ -180,13 +180,13 @@ PROPS = {
             "connection (R-SHARED). Constant folding only behind all-constant operands and, for functions, behind "
             "purity, with purity = neither row nor context passed and no global/clock reads (R-FOLDPURE); positional "
             "placeholders numbered in textual order and read back from where the numbering is kept (R-PLACEHOLDER). "
-            "Does not decide value equality of folded and unfolded evaluation. The census also follows: fields that hold connection objects, locals aliasing objects kept on self, results of `_compile` (which can be the table's own column objects), subscript reads of defaultdict fields of connection objects (a missing key is inserted), one-shot iterators stored on connection objects. The handlers of AND, OR, literals, `*` and column names build their node from the compiled arguments without evaluating anything (R-NODEBUILD): the only places where a constant expression is computed at compile time are the fold sites R-FOLDPURE decides, so a folded value and the per-row value cannot come from two different implementations of AND / OR."),
+            "Does not decide value equality of folded and unfolded evaluation. The census also follows: fields that hold connection objects, locals aliasing objects kept on self, results of `_compile` (which can be the table's own column objects), subscript reads of defaultdict fields of connection objects (a missing key is inserted), one-shot iterators stored on connection objects. The handlers of AND, OR, literals, `*` and column names build their node from the compiled arguments without evaluating anything (R-NODEBUILD): the only places where a constant expression is computed at compile time are the fold sites R-FOLDPURE decides, so a folded value and the per-row value cannot come from two different implementations of AND / OR. Every node of a statement is visited by ast.walk - fields, lists, nested lists, subqueries - exactly once, so every placeholder is counted and bound (R-WALK); a FROM subquery is compiled by the compiler of the enclosing statement, with its parameters and numbering (R-FROMCLAUSE); attaching a ledger leaves the caller's entries as they were (R-ATTACH)."),
         'assumptions': TRUSTED_STRUCT + [
             "receiver lifetimes: instances of a class are IMPORT/CONNECTION/EXECUTION objects according to where the class is "
             "instantiated; attributes named entries/options/entry/posting/postings/meta/price_map hold caller-owned ledger data; "
             "parameters named node/query/statement/... in the compiler and cursor are caller-owned",
             "TatSu, beancount and dateutil internals perform no shared writes (summarised, not analysed)"],
-        'quick': [st.rule_inputmut, st.rule_shared, st.rule_foldpure, sxst.rule_placeholder, sxk.rule_nodebuild],
+        'quick': [st.rule_inputmut, st.rule_shared, st.rule_foldpure, sxst.rule_placeholder, sxk.rule_nodebuild, sxst.rule_walk, sxk.rule_fromclause, sxt.rule_attach],
         'thorough': [],
     },
     'C10': {
@@ -199,9 +199,9 @@ PROPS = {
             "of cursor state (R-RESET); rowcount reads only state written by __init__ and execute and is -1 on a fresh "
             "cursor (R-ROWCOUNT); description entries are 7-sequences of the DB-API fields (R-COLUMN7); module constants, "
             "required methods (R-MODCONST), every Connection.execute() returns a fresh cursor bound to the connection "
-            "(R-FRESHCURSOR) and the exception tree (R-EXCTREE). Does not decide Python's slice arithmetic. execute() hands statement and parameters to the compiler unchanged (R-EXECFLOW). A description entry iterates, unpacks and converts to a tuple as the 7 fields: the Sequence mixin derives that from __len__ and __getitem__, and an override of __iter__ / __reversed__ in Column must deliver the same 7 terms in order (R-COLUMN7 column7:iteration)."),
+            "(R-FRESHCURSOR) and the exception tree (R-EXCTREE). Does not decide Python's slice arithmetic. execute() hands statement and parameters to the compiler unchanged (R-EXECFLOW). A description entry iterates, unpacks and converts to a tuple as the 7 fields: the Sequence mixin derives that from __len__ and __getitem__, and an override of __iter__ / __reversed__ in Column must deliver the same 7 terms in order (R-COLUMN7 column7:iteration). A connection starts with a table registry (the null table under ''), option dictionary and error list of its own, attaches the dsn it is given with its keyword arguments, picks the source module by the scheme of that dsn, hands parse / compile on unchanged and does nothing on close() (R-CONNECTION). Two description entries are equal exactly when name and type of both agree; a (name, datatype) tuple compares by those two; anything else is NotImplemented (R-COLUMNEQ)."),
         'assumptions': TRUSTED_STRUCT,
-        'quick': [sxc.rule_fetchsib, sxc.rule_reset, sxc.rule_rowcount, sxc.rule_column7, cu.rule_modconst, sxc.rule_freshcursor, cr.rule_exctree, sxc.rule_execflow],
+        'quick': [sxc.rule_fetchsib, sxc.rule_reset, sxc.rule_rowcount, sxc.rule_column7, cu.rule_modconst, sxc.rule_freshcursor, cr.rule_exctree, sxc.rule_execflow, sxc.rule_connection, sxc.rule_columneq],
         'thorough': [],
     },
     'C12': {
@@ -227,9 +227,9 @@ PROPS = {
             "requirements of the statement); every dereference of a result cell is dominated by a NULL test, by abstract "
             "interpretation with cells typed T|NULL (R-NONEFLOW); non-amount columns are copied by an identity converter "
             "bound to the same index/name/dtype and rows are produced one per input row with converters in column order "
-            "(R-IDENTITY). Does not decide that get_currency_units sums lots nor numeric equality after quantisation. Three scenarios of numberify_results: currencies present, an amount-like column without any currency (it disappears), two amount-like columns of one name and type (each decomposed from its own cells). run_query(numberify=True) hands the description and rows of the result and options['dcontext'].build() with its default precision to numberify_results (R-RUNQUERY)."),
+            "(R-IDENTITY). Does not decide that get_currency_units sums lots nor numeric equality after quantisation. Three scenarios of numberify_results: currencies present, an amount-like column without any currency (it disappears), two amount-like columns of one name and type (each decomposed from its own cells). run_query(numberify=True) hands the description and rows of the result and options['dcontext'].build() with its default precision to numberify_results (R-RUNQUERY). A constant - a literal or a query parameter - announces the exact class of its value (R-CONSTTYPE): an Inventory, Position or Amount handed in as a parameter and selected is a column of that type, which is what the converter lookup of numberify goes by."),
         'assumptions': TRUSTED_STRUCT + TRUSTED_ABSINT[:1],
-        'quick': [sxn.rule_siblings, lib.rule_numberify_null, sxn.rule_identity, sxn.rule_runquery, sxsh.rule_selectout, sxk.rule_accessnode],
+        'quick': [sxn.rule_siblings, lib.rule_numberify_null, sxn.rule_identity, sxn.rule_runquery, sxsh.rule_selectout, sxk.rule_accessnode, sxk.rule_consttype],
         'thorough': [],
     },
     'C18': {
@@ -270,12 +270,12 @@ PROPS = {
             "must be empty (R-SHARED); FROM-clause qualifiers are applied to a copy of the table (R-TABLECOPY); the "
             "balance guard lives in the per-scan row context (R-ONCEPERROW); threadsafety is a valid DB-API level "
             "(R-MODCONST). With nothing shared no interleaving needs exploring. Sharing a cursor between threads is "
-            "outside DB-API level 2 and outside the claim. The census follows locals that alias an object kept on self (a row context created once per connection-owned table and rewound per scan is shared by concurrent scans). parse() runs the statement through a parser object made in that call (R-PARSEFRESH). The census also covers process-wide state reached through the standard library: objects handed out by decimal.getcontext() and the like, calls whose purpose is to change process state (decimal.setcontext, locale.setlocale ...), and stores a module body makes at import into objects of other libraries (decimal.DefaultContext.prec = ...), which take effect per thread."),
+            "outside DB-API level 2 and outside the claim. The census follows locals that alias an object kept on self (a row context created once per connection-owned table and rewound per scan is shared by concurrent scans). parse() runs the statement through a parser object made in that call (R-PARSEFRESH). The census also covers process-wide state reached through the standard library: objects handed out by decimal.getcontext() and the like, calls whose purpose is to change process state (decimal.setcontext, locale.setlocale ...), and stores a module body makes at import into objects of other libraries (decimal.DefaultContext.prec = ...), which take effect per thread. Every connection owns its tables, options and errors (R-CONNECTION: new objects made in __init__, no default-argument or class-level objects); attach() does not change the ledger it is given - the list is shared with every other connection made from it (R-ATTACH attach:input); a mutable default argument that is stored or changed is shared state (census)."),
         'assumptions': TRUSTED_STRUCT + [
             "the call graph is over-approximated: every function of the non-front-end modules that is not import-only is "
             "treated as execution-reachable",
             "TatSu, beancount and dateutil internals perform no shared writes (summarised, not analysed)"],
-        'quick': [st.rule_shared, sxst.rule_tablecopy, sxst.rule_onceperrow, cu.rule_modconst, sxc.rule_freshcursor, st.rule_parsefresh],
+        'quick': [st.rule_shared, sxst.rule_tablecopy, sxst.rule_onceperrow, cu.rule_modconst, sxc.rule_freshcursor, st.rule_parsefresh, sxc.rule_connection, sxt.rule_attach],
         'thorough': [],
     },
     'C11': {
@@ -292,10 +292,10 @@ PROPS = {
             "record field, all tables registered, structure aliases consistent (R-TABLEFIELDS); meta()/entry_meta()/"
             "any_meta() rewritten to the right dictionary lookups, open/close selection from the (open, close) pair "
             "(R-METAREWRITE); getitem NULL-propagating (R-NULLSTRICT). Does not decide that beancount's getters and "
-            "convert functions compute what their names say. FROM qualifiers are applied to a copy of the connection's table, so the rows of a statement come from its own clauses only (R-TABLECOPY); getitem on a NULL container gives NULL with or without a default. attach() on terms, with and without a file name in the dsn: every class in TABLES is bound by a plain item store - replacing an earlier binding - to a table over the entries and options of this attach, and the connection's options and errors come from the same ledger (R-ATTACH). GetAttrColumn / GetItemColumn evaluate to the attribute / item they were built with and announce the dtype given; _typed_namedtuple_to_columns makes one column per annotated field, in order, published under its renamed name but reading the field itself, Optional unwrapped, generics reduced to their origin, `meta` announced as Metadata (R-TYPEDCOLS, on terms with typing's introspection stubbed)."),
+            "convert functions compute what their names say. FROM qualifiers are applied to a copy of the connection's table, so the rows of a statement come from its own clauses only (R-TABLECOPY); getitem on a NULL container gives NULL with or without a default. attach() on terms, with and without a file name in the dsn: every class in TABLES is bound by a plain item store - replacing an earlier binding - to a table over the entries and options of this attach, and the connection's options and errors come from the same ledger (R-ATTACH). GetAttrColumn / GetItemColumn evaluate to the attribute / item they were built with and announce the dtype given; _typed_namedtuple_to_columns makes one column per annotated field, in order, published under its renamed name but reading the field itself, Optional unwrapped, generics reduced to their origin, `meta` announced as Metadata (R-TYPEDCOLS, on terms with typing's introspection stubbed). AccountsTable, CommoditiesTable and PricesTable keep beancount's own readings of the ledger - getters.get_account_open_close, get_account_types of the options, get_commodity_directives, prices.build_price_map - and their row generators walk exactly those maps (R-TABLESOURCE). Options a column accessor fixes in the calls it makes (hash_entry(..., exclude_meta=...)) are part of its recorded access path (R-ACCESSPATH call_consts)."),
         'assumptions': TRUSTED_STRUCT + TRUSTED_ABSINT[:2],
         'quick': [tb.rule_accesspath, sxt.rule_rowgen, tb.rule_tablefields, tb.rule_metarewrite, dtype.rule_dtype_columns,
-                  dtype.rule_typesafe_columns, sxst.rule_tablecopy, st.rule_shared, sxt.rule_attach, sxt.rule_typedcols],
+                  dtype.rule_typesafe_columns, sxst.rule_tablecopy, st.rule_shared, sxt.rule_attach, sxt.rule_typedcols, sxt.rule_tablesource],
         'thorough': [],
     },
     'C13': {
@@ -309,10 +309,10 @@ PROPS = {
             "(R-GUARDS, R-GUARDSAFE); qualifiers are applied to a copy of the table (R-TABLECOPY); the shell's default "
             "close date is applied exactly to SELECTs with a FROM expression lacking CLOSE (R-DEFAULTCLOSE, 12 cases). NOT "
             "decided: balance preservation, carried-forward Equity postings, balancing of returned transactions - "
-            "properties of beancount.ops.summarize over ledger values. Compiler state is restored around every nested SELECT for every kind of FROM clause and on exceptional exits (R-REENTRANT); PRINT takes its directives from iterating the table, which is what applies the clauses (R-PRINTFILTER); the 33 combinations of FROM expression / OPEN / CLOSE / date order in _compile_from accept or reject as stated and update the table with exactly the clause values (R-FROMCLAUSE). A clause keyword that the grammar reads (OPEN, CLOSE, CLEAR ...) sets the field of its name on every derivation path (R-FIELDONCE); PRINT is compiled on the table its FROM clause produced (R-FIELDFLOW). The postings the period report returns are those of the prepared entries, unchanged and in order: the row generators yield one row per directive, resp. per posting of every transaction, each with a row identity of its own, from the entries prepare() returned (R-ROWGEN)."),
+            "properties of beancount.ops.summarize over ledger values. Compiler state is restored around every nested SELECT for every kind of FROM clause and on exceptional exits (R-REENTRANT); PRINT takes its directives from iterating the table, which is what applies the clauses (R-PRINTFILTER); the 33 combinations of FROM expression / OPEN / CLOSE / date order in _compile_from accept or reject as stated and update the table with exactly the clause values (R-FROMCLAUSE). A clause keyword that the grammar reads (OPEN, CLOSE, CLEAR ...) sets the field of its name on every derivation path (R-FIELDONCE); PRINT is compiled on the table its FROM clause produced (R-FIELDFLOW). The postings the period report returns are those of the prepared entries, unchanged and in order: the row generators yield one row per directive, resp. per posting of every transaction, each with a row identity of its own, from the entries prepare() returned (R-ROWGEN). The summarisation reads the account-type names, Equity account names and conversion currency from the options the table was built with: attach() builds every table from the entries and the options of the ledger being attached (R-ATTACH). The columns through which the period report is read - price and cost of the conversion and opening postings included - present the posting's own attributes (R-ACCESSPATH)."),
         'assumptions': TRUSTED_STRUCT,
         'quick': [cl.rule_callorder, sxk.rule_fromand, sxk.rule_fromclause, sxg.rule_guards, cr.rule_guard_typesafe, sxst.rule_tablecopy,
-                  sxst.rule_defaultclose, sxst.rule_reentrant, sx.rule_printfilter, gr.rule_fieldonce, cl.rule_fieldflow, sxt.rule_rowgen],
+                  sxst.rule_defaultclose, sxst.rule_reentrant, sx.rule_printfilter, gr.rule_fieldonce, cl.rule_fieldflow, sxt.rule_rowgen, sxt.rule_attach, tb.rule_accesspath],
         'thorough': [],
     },
     'C14': {
@@ -339,9 +339,9 @@ PROPS = {
             "(R-GUARDS). Reshaping half, structurally: remaining columns = all but the two pivots, keys sorted, naming "
             "switch on the number of remaining columns, datatypes repeated per key, rows sorted and grouped by the first "
             "column, block placement keys.index(k) * nother + 1, NULL fill (R-PIVOTSHAPE: the recognised skeleton; a "
-            "rewrite ends in ANALYSIS-ERROR, not a verdict). NOT decided: the index arithmetic for all key sets. The pivotby grammar rule derives exactly two references separated by a comma, each a name or a position independently (R-CLAUSELANG); _compile_select hands EvalPivot the compiled query and exactly the two positions _compile_pivot_by resolved, first then second (R-PIVOTFLOW)."),
+            "rewrite ends in ANALYSIS-ERROR, not a verdict). NOT decided: the index arithmetic for all key sets. The pivotby grammar rule derives exactly two references separated by a comma, each a name or a position independently (R-CLAUSELANG); _compile_select hands EvalPivot the compiled query and exactly the two positions _compile_pivot_by resolved, first then second (R-PIVOTFLOW). The blocks are named by the text of the key values and typed by the announced dtypes: every value a function, operator or column delivers is of the dtype it announces - a bool under int is not (R-DTYPE), since `True/total` is not the name of a block of an integer key. NULL keys cannot be pivoted on (they do not sort), so nullable keys go through COALESCE: it returns its first non-NULL argument, zero / empty / FALSE included (R-3VL), so that no key value is merged into the fallback."),
         'assumptions': TRUSTED_STRUCT,
-        'quick': [sxk.rule_idxbound, cr.rule_guard_typesafe, sxg.rule_guards, sxp.rule_pivotshape, gr.rule_clauselang_pivot, sxp.rule_pivotflow],
+        'quick': [sxk.rule_idxbound, cr.rule_guard_typesafe, sxg.rule_guards, sxp.rule_pivotshape, gr.rule_clauselang_pivot, sxp.rule_pivotflow, dtype.rule_dtype, sxev.rule_3vl],
         'thorough': [sxp.rule_pivotshape_deep, sxk.rule_idxbound_deep],
     },
     'C19': {
@@ -355,9 +355,9 @@ PROPS = {
             "dot-commands never reach execute(), other lines do unless legacy, legacy names disjoint from statement "
             "keywords (R-DISPATCH); default close date for named queries (R-DEFAULTCLOSE); statement handlers exhaustive "
             "(R-EXHAUSTIVE). Does not decide byte equality of shell output with the renderer (the same function is "
-            "called), pager behaviour or history. _parse_format returns the very value whose membership in FORMATS it tested; parse() builds a new tree per call (R-PARSEFRESH): the shell writes the default CLOSE date into the tree it parsed. On terms: Settings.setstr for every setting x current value (the value goes through the setting's own parser, else its type's parser, else the type; exactly that setting is stored once with the parsed value; nothing is stored when the parser rejects), _parse_bool returns a bool on every path and reads back the spellings .set echoes, main -> BQLShell.__init__ -> do_reload carry every option (the error report is printed iff there are errors and -q was not given). BQLShell.on_Select hands the (numberified iff the setting is on) result of the connection, once, to FORMATS[settings.format] with the shell output, the ledger display context and all settings and prints nothing itself, for empty and non-empty results; on_Journal / on_Balances delegate to it; the text and csv plug-ins forward everything to render_text / render_csv, `(empty)` being the text format's rendering of an empty result (R-SELECTOUT). `.set` takes its words from shlex.split(arg) with the default rules. The dispatcher is interpreted on terms over dot prefix x command defined x legacy name. parseline on concrete command words: exactly one leading dot is the prefix (R-CMDWORD); _extract_queries rebuilds the registry of named queries from the entries just loaded, first directive of a name wins (R-QUERYREG). Settings.todict() either returns a new mapping or, if it returns the live attribute dictionary, no handler changes it (R-SELECTOUT settings-mutated)."),
+            "called), pager behaviour or history. _parse_format returns the very value whose membership in FORMATS it tested; parse() builds a new tree per call (R-PARSEFRESH): the shell writes the default CLOSE date into the tree it parsed. On terms: Settings.setstr for every setting x current value (the value goes through the setting's own parser, else its type's parser, else the type; exactly that setting is stored once with the parsed value; nothing is stored when the parser rejects), _parse_bool returns a bool on every path and reads back the spellings .set echoes, main -> BQLShell.__init__ -> do_reload carry every option (the error report is printed iff there are errors and -q was not given). BQLShell.on_Select hands the (numberified iff the setting is on) result of the connection, once, to FORMATS[settings.format] with the shell output, the ledger display context and all settings and prints nothing itself, for empty and non-empty results; on_Journal / on_Balances delegate to it; the text and csv plug-ins forward everything to render_text / render_csv, `(empty)` being the text format's rendering of an empty result (R-SELECTOUT). `.set` takes its words from shlex.split(arg) with the default rules. The dispatcher is interpreted on terms over dot prefix x command defined x legacy name. parseline on concrete command words: exactly one leading dot is the prefix (R-CMDWORD); _extract_queries rebuilds the registry of named queries from the entries just loaded, first directive of a name wins (R-QUERYREG). Settings.todict() either returns a new mapping or, if it returns the live attribute dictionary, no handler changes it (R-SELECTOUT settings-mutated). `with self.output as out` yields a file that stays open: for redirected output nullcontext(self.outfile), for the terminal a pager or the flushing wrapper, never the bare file object (R-OUTPUT, 4 cases)."),
         'assumptions': TRUSTED_STRUCT,
-        'quick': [cl.rule_settings, sxsh.rule_optused, sxsh.rule_selectout, cl.rule_dispatch, sxsh.rule_cmdword, sxsh.rule_queryreg, sxst.rule_defaultclose, cr.rule_exhaustive, st.rule_parsefresh],
+        'quick': [cl.rule_settings, sxsh.rule_optused, sxsh.rule_selectout, cl.rule_dispatch, sxsh.rule_cmdword, sxsh.rule_queryreg, sxst.rule_defaultclose, cr.rule_exhaustive, st.rule_parsefresh, sxsh.rule_output],
         'thorough': [],
     },
 }
